@@ -240,18 +240,27 @@ func ruleLatencyStart(r *Run) {
 	// clientID comes from the connection's own header
 	hc := r.modelFunc("websocket.(*RealtimeHandler).HandleConnect")
 	if hc != nil {
-		okID := false
-		for _, p := range r.Paths(hc) {
+		okID, seen, got := true, false, ""
+		paths := r.Paths(hc)
+		for pi := range paths {
+			p := &paths[pi]
+			r.at(p)
 			for _, ev := range p.Events {
-				if ev.Kind == EvAssign && len(ev.Lhs) == 1 && r.P.Canon(hc, ev.Lhs[0]) == "recv.clientID" {
-					c := r.P.Canon(hc, ev.Rhs[0])
-					okID = strings.Contains(c, "HeaderPosemeshClientID") && strings.Contains(c, "param:#0")
+				if ev.Kind == EvAssign && len(ev.Lhs) == 1 && len(ev.Rhs) == 1 && r.P.Canon(ev.Fn, ev.Lhs[0]) == "recv.clientID" {
+					c := r.P.Canon(ev.Fn, ev.Rhs[0])
+					seen = true
+					// the header value itself: no trimming, cutting, folding or defaulting on the way
+					if !reClientIDHeader.MatchString(c) {
+						okID, got = false, c
+					}
 				}
 			}
 		}
-		r.Check("I2", hc.Name+":client-id", okID, hc.Body.Pos(), "the client id bound into latency reports is the id the connection presented")
+		r.Check("I2", hc.Name+":client-id", okID && seen, hc.Body.Pos(), "the client id bound into latency reports is, verbatim, the id the connection presented in its client-id header (%s)", got)
 	}
 }
+
+var reClientIDHeader = regexp.MustCompile(`^param:#0\.call:Conn\.Request\(\)\.Header\.call:Header\.Get\([^()]*HeaderPosemeshClientID\)$`)
 
 // ruleEntityActions (H3) and module state keying (C16).
 func ruleEntityActions(r *Run) {
